@@ -7,6 +7,7 @@ import (
 	"math"
 	"reflect"
 	"strings"
+	"time"
 
 	"github.com/paulmach/orb"
 	"github.com/paulmach/orb/encoding/mvt"
@@ -487,6 +488,41 @@ func rebuildProps(r *h.Rand, layers mvt.Layers) mvt.Layers {
 	return out
 }
 
+// a JSON codec as a program might install in the geojson package: valid JSON, spelled differently from encoding/json
+type c03hook struct{}
+
+func (c03hook) Marshal(v interface{}) ([]byte, error) {
+	b, err := json.MarshalIndent(v, " ", "\t")
+	return append(b, ' '), err
+}
+func (c03hook) Unmarshal(data []byte, v interface{}) error {
+	d := json.NewDecoder(bytes.NewReader(data))
+	d.UseNumber()
+	return d.Decode(v)
+}
+
+var c03first struct {
+	layers    mvt.Layers
+	gz, plain []byte
+	slept     bool
+}
+
+func c03clone(layers mvt.Layers) mvt.Layers {
+	out := make(mvt.Layers, len(layers))
+	for i, l := range layers {
+		nl := *l
+		nl.Features = make([]*geojson.Feature, len(l.Features))
+		for j, f := range l.Features {
+			nf := *f
+			nf.Geometry = refmodel.Copy(f.Geometry)
+			nf.Properties = f.Properties.Clone()
+			nl.Features[j] = &nf
+		}
+		out[i] = &nl
+	}
+	return out
+}
+
 func c03roundTrip(c *h.Ctx, r *h.Rand, layers mvt.Layers, collection bool) {
 	desc := c03describe(layers)
 	c.Note([]byte(desc))
@@ -515,7 +551,13 @@ func c03roundTrip(c *h.Ctx, r *h.Rand, layers mvt.Layers, collection bool) {
 	c03held, c03heldCopy = data, append([]byte{}, data...)
 	// determinism: 8 marshals with property maps rebuilt in different insertion orders
 	for k := 0; k < 7; k++ {
+		if k == 3 || k == 4 {
+			// the GeoJSON package's codec knobs belong to GeoJSON documents: a program that installed its own JSON
+			// codec there (indenting, unsorted keys, shortened floats) still gets the same tiles
+			geojson.CustomJSONMarshaler, geojson.CustomJSONUnmarshaler = c03hook{}, c03hook{}
+		}
 		d2, err := mvt.Marshal(rebuildProps(r, layers))
+		geojson.CustomJSONMarshaler, geojson.CustomJSONUnmarshaler = nil, nil
 		c.Eval()
 		if err != nil || !bytes.Equal(d2, data) {
 			fail("", "marshalling the same layers again gives different bytes", map[string]interface{}{"attempt": k + 2, "err": sv(err)})
@@ -526,6 +568,27 @@ func c03roundTrip(c *h.Ctx, r *h.Rand, layers mvt.Layers, collection bool) {
 	if err != nil {
 		fail("", "mvt.MarshalGzipped failed", err.Error())
 		return
+	}
+	if gz2, err := mvt.MarshalGzipped(rebuildProps(r, layers)); err != nil || !bytes.Equal(gz, gz2) {
+		fail("", "marshalling the same layers again gives different gzipped bytes", sv(err))
+	}
+	if c03first.gz == nil {
+		// the first tile of this worker is marshalled again by later cases: repetitions of Marshal on one value that lie
+		// seconds apart, not microseconds
+		c03first.gz, c03first.layers = gz, c03clone(layers)
+		c03first.plain = data
+	} else if c.CaseHash()%64 == 0 {
+		if !c03first.slept {
+			c03first.slept = true
+			time.Sleep(1100 * time.Millisecond) // (injected delay: at least once per worker the repetition is more than a second later)
+		}
+		g2, err := mvt.MarshalGzipped(c03first.layers)
+		d2, err2 := mvt.Marshal(c03first.layers)
+		c.Eval()
+		c.Count("repetitions_of_the_worker's_first_tile_later_in_the_run", 1)
+		if err != nil || err2 != nil || !bytes.Equal(g2, c03first.gz) || !bytes.Equal(d2, c03first.plain) {
+			fail("", "marshalling the same layers again later in the run gives different bytes", map[string]interface{}{"gzipped_equal": bytes.Equal(g2, c03first.gz), "plain_equal": bytes.Equal(d2, c03first.plain)})
+		}
 	}
 	paths := []struct {
 		name string
